@@ -600,7 +600,7 @@ func iterateSliceOrArrayBool(context *Context, v reflect.Value) {
 		}
 		accum := byte(0)
 		for iBit := 0; iBit < bitCount; iBit++ {
-			if v.Index(iBit).Bool() {
+			if v.Index(iSrc).Bool() {
 				accum |= 1 << iBit
 			}
 			iSrc++
